@@ -33,7 +33,7 @@ MANIFEST = dict(
     design_ref="DESIGN.md §5 C09, §6 F4",
     note="trusted: Lean kernel; hand-written model (differential: quick 8 histories = 48 CLI runs, thorough 60); the HP text "
          "codec and htslib parsing are in the harness. F4 (a: old encoding kept when re-phasing with the other tag, "
-         "b: _set_HP assumes sorted GT) and F12 (HP written as NUL byte when no sample of a record has an HP value) are "
+         "b: _set_HP assumes sorted GT) and F21 (HP written as NUL byte when no sample of a record has an HP value) are "
          "genuine defects of /repo: reported until fixes/F4.patch is applied. Pseudo-read reproduction is checked on "
          "pipeline runs (the solver/optimality part is C01/C03's theorem, not re-proved here)",
     technique="Lean 4 proof on record-level codec/writer model + differential correspondence on CLI histories",
